@@ -62,9 +62,79 @@ func deepRead(v interface{}) int {
 //	oneshot    the one-shot Search from all goroutines on the same document
 //	mixed      compiled searches while other goroutines Compile and search other expressions
 //	reader     searches on a shared document while another goroutine deep-reads it
+// predConcurrentStruct: a compiled expression shared by goroutines searching a
+// Go struct document (field lookups go through reflection). No reference model:
+// every goroutine's JSON-normalised result must equal the sequential one.
+func predConcurrentStruct(c Case) (r Result) {
+	expr := c.expr()
+	breadcrumb(c)
+	in := &hwInner{Name: "n", Tags: []string{"x", "y"}}
+	doc := &hwDoc{Name: "d", Items: []*hwInner{in, nil, {Name: "", Tags: []string{}}}, Inner: *in, Ptr: in, Nums: []float64{2, 1}, Strs: []string{"b", "a"}}
+	comp, cerr, pan := libCompile(expr)
+	if pan != nil || cerr != nil {
+		r.Discard = "does-not-compile"
+		return
+	}
+	var seq libOut
+	seq.Panic = safely(func() { seq.Val, seq.Err = comp.Search(doc) })
+	if seq.Panic != nil {
+		r.Violation = "Search panicked on struct data"
+		r.Got = showOut(seq)
+		return
+	}
+	seqNorm, _ := normalise(seq.Val)
+	// a fresh compiled expression per case: the first uses of it overlap
+	comp, _, _ = libCompile(expr)
+	G, iters := 8, 10
+	outs := make([][]libOut, G)
+	var wg sync.WaitGroup
+	start := make(chan struct{})
+	for g := 0; g < G; g++ {
+		wg.Add(1)
+		go func(g int) {
+			defer wg.Done()
+			<-start
+			for i := 0; i < iters; i++ {
+				var o libOut
+				o.Panic = safely(func() { o.Val, o.Err = comp.Search(doc) })
+				outs[g] = append(outs[g], o)
+			}
+		}(g)
+	}
+	close(start)
+	wg.Wait()
+	r.Nontrivial = true
+	r.class("mode.struct")
+	for g := range outs {
+		for _, o := range outs[g] {
+			if o.Panic != nil {
+				r.Violation = "Search panicked under concurrent use on struct data"
+				r.Got = showOut(o)
+				return
+			}
+			if (o.Err != nil) != (seq.Err != nil) {
+				r.Violation = "a concurrent call disagrees with the sequential call about failure"
+				r.Expected, r.Got = showOut(seq), showOut(o)
+				return
+			}
+			if o.Err == nil {
+				if n, _ := normalise(o.Val); !reflect.DeepEqual(n, seqNorm) && !strings.Contains(expr, "*") && !strings.Contains(expr, "keys") && !strings.Contains(expr, "values") {
+					r.Violation = "a concurrent call on struct data returned a different value than the same call made alone"
+					r.Expected, r.Got = show(seqNorm), show(n)
+					return
+				}
+			}
+		}
+	}
+	return
+}
+
 func predConcurrent(c Case) (r Result) {
 	expr := c.expr()
 	mode, _ := c.Extra["mode"].(string)
+	if mode == "struct" {
+		return predConcurrentStruct(c)
+	}
 	G, iters := 8, 20
 	if v, ok := c.Extra["goroutines"].(float64); ok {
 		G = int(v)
@@ -229,7 +299,16 @@ func TestC12(t *testing.T) {
 	rapid.Check(t, func(t *rapid.T) {
 		var doc interface{}
 		var expr string
-		switch rapid.IntRange(0, 2).Draw(t, "src") {
+		src := rapid.IntRange(0, 3).Draw(t, "src")
+		if src == 3 {
+			expr = hwExprs[rapid.IntRange(0, len(hwExprs)-1).Draw(t, "hw")]
+			if rapid.Bool().Draw(t, "hwCtx") {
+				expr = "[" + expr + ", Name, Items[*].Name]"
+			}
+			run(t, Case{Property: "C12", Kind: "concurrent", Expr: expr, Doc: "null", Extra: map[string]interface{}{"mode": "struct"}})
+			return
+		}
+		switch src {
 		case 0:
 			doc = genUnsortedDoc(t)
 			expr = c12LiteralExprs[rapid.IntRange(0, len(c12LiteralExprs)-1).Draw(t, "lit")]
